@@ -91,10 +91,10 @@ Record spec := mkSpec {
 
 Definition spec0 : spec := mkSpec [] None [] [] true.
 
-(* what is visible of one operation *)
+(* what is visible of one operation; q = what position() reports right after an offer / a claim *)
 Inductive event :=
-| EvOffer (m : list Z) (r : outcome Z)     (* offer(m) returned r *)
-| EvClaim (len : Z) (r : outcome Z)        (* try_claim(len) returned r *)
+| EvOffer (m : list Z) (r : outcome Z) (q : outcome Z)     (* offer(m) returned r *)
+| EvClaim (len : Z) (r : outcome Z) (q : outcome Z)        (* try_claim(len) returned r *)
 | EvCommit (body : list Z)                 (* body written into the claimed range, commit() *)
 | EvAbort                                  (* abort() *)
 | EvPoll (msgs : list (list Z))            (* a poll during which the handler received msgs *)
@@ -105,21 +105,31 @@ Definition pad_to_term_end (g : sgeom) (s : stream) : stream :=
   let r := pos_after (sg_p0 g) s mod sg_tlen g in
   if r =? 0 then [] else [Pad (sg_tlen g - r)].
 
-Definition on_result (g : sgeom) (sp : spec) (r : outcome Z) (accept : Z -> spec) : spec :=
+(* MaxPositionExceeded is the one refusal that may have closed the (very last) term with padding: the publication then
+   reports the end of the position space, and the stream is padded up to the position it reports; when position()
+   reports the end of the stream as it is (every other case) nothing happens *)
+Definition pad_to_reported (g : sgeom) (s : stream) (q : outcome Z) : stream :=
+  match q with
+  | Ok p => let e := pos_after (sg_p0 g) s in if e <? p then [Pad (p - e)] else []
+  | _ => []
+  end.
+
+Definition on_result (g : sgeom) (sp : spec) (r q : outcome Z) (accept : Z -> spec) : spec :=
   match r with
   | Ok p => accept p
   | Err AdminAction => mkSpec (sp_stream sp ++ pad_to_term_end g (sp_stream sp)) (sp_open sp) (sp_acc sp) (sp_del sp) (sp_ok sp)
+  | Err MaxPositionExceeded => mkSpec (sp_stream sp ++ pad_to_reported g (sp_stream sp) q) (sp_open sp) (sp_acc sp) (sp_del sp) (sp_ok sp)
   | _ => sp                                (* every other result: nothing happens, now or later *)
   end.
 
 Definition spec_step (g : sgeom) (sp : spec) (e : event) : spec :=
   match e with
-  | EvOffer m r =>
-      on_result g sp r (fun p =>
+  | EvOffer m r q =>
+      on_result g sp r q (fun p =>
         let s' := sp_stream sp ++ msg_items (sg_mpl g) m in
         mkSpec s' (sp_open sp) (sp_acc sp ++ [(m, p)]) (sp_del sp) (sp_ok sp && (p =? pos_after (sg_p0 g) s')))
-  | EvClaim len r =>
-      on_result g sp r (fun p =>
+  | EvClaim len r q =>
+      on_result g sp r q (fun p =>
         mkSpec (sp_stream sp) (Some (len, p)) (sp_acc sp) (sp_del sp)
                (sp_ok sp && (p =? pos_after (sg_p0 g) (sp_stream sp) + align (32 + len) 32)))
   | EvCommit body =>
